@@ -441,7 +441,7 @@ func (w *World) deepCallsTo(f *ssa.Function, depth int, specs ...string) []deepC
 	var out []deepCall
 	var walk func(g *ssa.Function, site ssa.CallInstruction, sub map[ssa.Value]string, d int, seen map[*ssa.Function]bool)
 	walk = func(g *ssa.Function, site ssa.CallInstruction, sub map[ssa.Value]string, d int, seen map[*ssa.Function]bool) {
-		for _, call := range callInstrs(g) {
+		for _, call := range rawCallInstrs(g) {
 			s := site
 			if g == f {
 				s = call
